@@ -29,3 +29,17 @@ Lemma source_owner_is_member fe fp ms mc es ch o :
   exists w, owner (objs (cg (cstate_after (src_cfg fe fp ms mc) es)) o) = Some w /\
             In w (members (objs (cg (cstate_after (src_cfg fe fp ms mc) es)) o)).
 Proof. apply conc_owner_is_member_always, source_is_fixed. Qed.
+
+(* the reasons each function refuses with, in the order of its checks (the first failing check decides the reason): the
+   order the model's refusal branches follow, with the reasons outside the model's vocabulary (foreign domain, channel
+   limit) kept in place so that an inserted, dropped or reordered check in the source is noticed *)
+Open Scope string_scope.
+Definition model_refusals : list (string * list string) :=
+  [("join_channel", ["NotImplemented"; "ServerOverloaded"; "ResourceConflict"; "Forbidden"; "UserNotRegistered"; "NotAllowed"; "UserInChannel"; "ChannelIsFull"; "PolicyViolation"]);
+   ("leave_channel", ["NotImplemented"; "ChannelNotFound"; "ChannelNotFound"; "Forbidden"; "UserNotInChannel"]);
+   ("broadcast_payload", ["NotImplemented"; "ChannelNotFound"; "Forbidden"; "NotAllowed"; "PolicyViolation"]);
+   ("set_channel_acl", ["NotAllowed"; "ChannelNotFound"; "Forbidden"; "PolicyViolation"]);
+   ("get_channel_acl", ["NotAllowed"; "ChannelNotFound"; "Forbidden"]);
+   ("list_members", ["NotImplemented"; "ChannelNotFound"; "UserNotInChannel"])].
+Lemma source_refusal_order : conc_source_refusals = model_refusals.
+Proof. vm_compute. reflexivity. Qed.
